@@ -163,6 +163,9 @@ def accept_traces(items, name="sys", timeout=900, shard=12):
        {accepted: bool, reject_index: idx into the raw trace or None, monitors: {name: bool}, n_events}"""
     if not items:
         return []
+    # the executable part of the system model (acceptor, monitors, fault_free: no proofs inside) must be runnable even
+    # when a theorem of the property no longer checks - that is when a concrete failing input is wanted most
+    core.build(["theories/SystemFault.vo"])
     encs = []
     for sc, tr in items:
         e = Enc(sc)
